@@ -106,6 +106,7 @@ func checkC06(c *Ctx) {
 		})
 	}
 	serverSendsGiveUp(c, fns, "R-nonblocking-send")
+	c06IndexGuard(c, fns, "R-index-guard")
 	c.R.Min("R-nonblocking-send", 10)
 	// close-once
 	for _, cs := range closeSites(c, fns) {
@@ -381,5 +382,70 @@ func serverSendsGiveUp(c *Ctx, fns []*ssa.Function, rule string) {
 			c.R.Check(hasExit, rule, sprintf("send in %s #%d", fname(fn), nSel), c.Pos(sel.Pos()), "the send can give up (default arm or a done/ctx/timer arm)",
 				sprintf("%s has a select that only sends: a full queue blocks the request path forever", fname(fn)))
 		})
+	}
+}
+
+// ---------------------------------------------------------------- R-index-guard
+// strings.Split / SplitN / SplitAfter return at least one element, strings.Fields possibly none. Indexing such a
+// result (peer-controlled text: header values, lines) at a constant position beyond what is guaranteed must be
+// dominated by a length test; otherwise one malformed value ("q" where "q=0.5" was expected) panics the request.
+func c06IndexGuard(c *Ctx, fns []*ssa.Function, rule string) {
+	n := 0
+	for _, fn := range fns {
+		ir.EachInstr(fn, func(_ *ssa.BasicBlock, _ int, in ssa.Instruction) {
+			var coll, idx ssa.Value
+			switch x := in.(type) {
+			case *ssa.IndexAddr:
+				coll, idx = x.X, x.Index
+			case *ssa.Index:
+				coll, idx = x.X, x.Index
+			default:
+				return
+			}
+			k, ok := ir.ConstInt(idx)
+			if !ok {
+				return
+			}
+			oc := originCall(coll)
+			if oc == nil {
+				return
+			}
+			guaranteed := int64(-1)
+			switch ir.CallName(oc) {
+			case "strings.Split", "strings.SplitN", "strings.SplitAfter", "strings.SplitAfterN":
+				guaranteed = 1
+			case "strings.Fields", "strings.FieldsFunc":
+				guaranteed = 0
+			default:
+				return
+			}
+			if k < guaranteed {
+				return
+			}
+			n++
+			guarded := false
+			for _, g := range flow.Guards(fn, in.Block()) {
+				bin, ok := g.If.Cond.(*ssa.BinOp)
+				if !ok {
+					continue
+				}
+				isLen := func(v ssa.Value) bool {
+					lc, ok := v.(*ssa.Call)
+					if !ok {
+						return false
+					}
+					b, ok := lc.Call.Value.(*ssa.Builtin)
+					return ok && b.Name() == "len" && originCall(lc.Call.Args[0]) == oc
+				}
+				if isLen(bin.X) || isLen(bin.Y) {
+					guarded = true // some test of the length controls the access
+				}
+			}
+			c.R.Check(guarded, rule, sprintf("element %d of a split in %s", k, fname(fn)), c.Pos(in.Pos()), "controlled by a test of the result's length",
+				sprintf("%s takes element %d of the result of %s without testing its length: input without the expected separator makes it panic with 'index out of range'", fname(fn), k, ir.CallName(oc)))
+		})
+	}
+	if n == 0 {
+		c.R.Hold(rule, "no unguarded constant index into a split result", "", "")
 	}
 }
